@@ -90,7 +90,11 @@ def gen(rng, knobs):
         own = [e for e in h.events if e["pubkey"] == h.pub(0)]
         if len(own) >= 2:
             h.add(h.deletion(author=0, targets=[e["id"] for e in own[:4]], created_at=histgen.T0))
-    return {"backend": backend, "ops": h.ops, "errseed": rng.randrange(1 << 30),
+    # swarm knob: with a single insert slot / reader slot one leaked slot already wedges the storage
+    opts = {}
+    if backend == "sql":
+        opts = {"num_concurrent_adds": rng.choice([1, 1, 2, 4]), "num_concurrent_reqs": rng.choice([1, 2, 10])}
+    return {"backend": backend, "ops": h.ops, "errseed": rng.randrange(1 << 30), "storage_opts": opts,
             "max_points": knobs.get("max_points", 120)}
 
 
@@ -117,6 +121,7 @@ class HistRun:
         self.keep = set(keep)          # (i, k) crash images to keep on disk for a resumed run
         self.kept = {}
         self.resume = resume           # directory of a kept crash image to start from
+        self.storage_opts = dict(getattr(outer, "c07_storage_opts", {}))
         self.outer = outer
         self.backend = backend
         self.ops = ops
@@ -131,7 +136,8 @@ class HistRun:
         outer = self.outer
         sim = kernel.Sim(outer.ch, seed_str="inner", profile=outer.profile, step_cap=outer.step_cap)
         self.sim = sim
-        w = store.StoreWorld(sim, self.backend, track_states=True, full_states=True)
+        w = store.StoreWorld(sim, self.backend, track_states=True, full_states=True,
+                             storage_opts=dict(self.storage_opts))
         self.world = w
         envx = w.env
         cur = {"i": None, "k": 0}
@@ -253,6 +259,7 @@ def whole_event_subset(state, pre_state, post_state, backend):
 def run(case, sim):
     backend = case["backend"]
     ops = case["ops"]
+    sim.c07_storage_opts = case.get("storage_opts", {})
     viol = []
     probes = {"fault_points": 0, "kill_points": 0, "multi_effect_points": 0, "state_pre": 0,
               "state_post": 0, "state_partial_pass": 0, "resumed_from_crash_image": 0, "commit_boundaries": 0, "backend_" + backend: 1}
